@@ -93,6 +93,9 @@ class _FuseMinMaxBase(RewriteRuleClassBase, abc.ABC):
         first_node = out1.producer()
         second_node = out2.producer()
 
+        if len(first_node.inputs) < 2 or len(second_node.inputs) < 2:
+            return check_result.fail("There is no constant operand to fuse.")
+
         # Ensure all inputs except the first are constants
         for input_ in first_node.inputs[1:] + second_node.inputs[1:]:
             if ir.convenience.get_const_tensor(input_) is None:
